@@ -109,10 +109,11 @@ Record dialect := {
   d_uint32 : Z -> Z;
   d_uint16 : Z -> Z;
   d_integer : Z -> Z;
+  d_div : Z -> Z -> Z;
   d_str2num : list Z -> numlit;
   d_strlt : list Z -> list Z -> bool;
   d_plus_late : bool;        (* a + b: GetValue(b) after ToPrimitive(a) *)
-  d_cmp_late : bool;         (* x op= e: GetValue(x) after evaluating e *)
+  d_cmp_late : bool;         (* x op= e: GetValue(x) after evaluating e (otto before commit 3657e0a; no dialect sets it now) *)
   d_otto_cmp : bool          (* otto's transcription of 11.8.5 / 11.9.3 instead of the clause text *)
 }.
 
@@ -293,7 +294,7 @@ Definition int_binop (op : Z) (a b : Z) : Z :=
 Definition arith (op : Z) (a b : Z) : Z :=
   if op =? 1 then fsub a b
   else if op =? 2 then fmul a b
-  else if op =? 3 then fdiv a b
+  else if op =? 3 then d_div d a b
   else fmod a b.
 
 Definition is_str (p : prim) : bool := match p with PStr _ => true | _ => false end.
@@ -434,16 +435,18 @@ End WithDialect.
 (* ---------- the two dialects ---------- *)
 
 Definition spec_d : dialect := {|
-  d_int32 := to_int32; d_uint32 := to_uint32; d_uint16 := to_uint16; d_integer := to_integer;
+  d_int32 := to_int32; d_uint32 := to_uint32; d_uint16 := to_uint16; d_integer := to_integer; d_div := fdiv;
   d_str2num := string_to_number; d_strlt := units_lt;
   d_plus_late := false; d_cmp_late := false; d_otto_cmp := false |}.
 
 Definition model_str2num (s : list Z) : numlit := NLVal (parse_number s).
 
 Definition model_d : dialect := {|
-  d_int32 := m_to_int32; d_uint32 := m_to_uint32; d_uint16 := m_to_uint16; d_integer := m_to_integer;
+  d_int32 := m_to_int32; d_uint32 := m_to_uint32; d_uint16 := m_to_uint16; d_integer := m_to_integer; d_div := m_divide;
   d_str2num := model_str2num; d_strlt := m_str_lt;
-  d_plus_late := true; d_cmp_late := true; d_otto_cmp := true |}.
+  d_plus_late := true;
+  d_cmp_late := false;   (* was true up to /repo commit 3657e0a, which restored the 11.13.2 order *)
+  d_otto_cmp := true |}.
 
 (* observation of one run: status (0 normal, else the thrown tag), result, final variables, log *)
 Definition obs := (Z * oval * list oval * list Z)%type.
